@@ -110,10 +110,10 @@ def step (line : String) : String :=
       let dicts ← many (many (do
         let n ← next
         let kind ← next
-        let u ← ufun
         match kind with
-        | "raw" => pure (n, DEntry.raw u)          -- the user's plain callable (or constant tensor)
-        | "wrapped" => pure (n, DEntry.wrapped u)  -- the user handed over a UserFunction object
+        | "raw" => do pure (n, DEntry.raw (← ufun))          -- the user's plain callable (or constant / number)
+        | "wrapped" => do pure (n, DEntry.wrapped (← ufun))  -- the user handed over a UserFunction object
+        | "tensor" => do pure (n, DEntry.tensor (← table))   -- a table of values (tensor, or a callable returning a stored tensor)
         | t => throw s!"entry:{t}"))
       let ops ← many op
       let w : World Rat := World.init dicts
